@@ -5,7 +5,8 @@
 //! names shared between exchanges, assets used only for settlement / only as quantity unit) over
 //! 1..=5 exchanges, plus 5 explicit insertion orders. Every order is built through the real
 //! `IndexedInstruments::new(iter)` AND the real `IndexedInstruments::builder().add_instrument(..)
-//! .build()`. The oracle is pure set semantics computed from the definitions alone (BTreeSet of
+//! .build()`. (Sanitizer tiers `miri`/`tsan`: 30 collections of 1..=4 definitions over 1..=2
+//! exchanges, 2 insertion orders, one thread, no coverage floor.) The oracle is pure set semantics computed from the definitions alone (BTreeSet of
 //! exchanges, of (exchange, asset internal name), of distinct definitions) — it never sorts and
 //! never predicts WHICH index an entity gets, only that:
 //!   * every distinct exchange / exchange-asset / instrument occupies exactly one slot, slot i
@@ -172,6 +173,10 @@ struct Case {
     /// which order) — derived deterministically from (seed, sets of the case)
     balance_seed: u64,
     exec_seed: u64,
+    /// sanitizer tiers: probe only a few unknown names per exchange (every failing AND succeeding
+    /// `find_*` call formats the whole table into its error message, which is slow under Miri)
+    #[serde(default)]
+    light: bool,
 }
 
 fn exch_asset_name(exchange: ExchangeId, internal: &str) -> String {
@@ -423,7 +428,7 @@ fn recover(ii: &IndexedInstruments, x: &Indexed, obs: &mut Obs) -> Result<Def, F
 }
 
 /// Full judgement of one `IndexedInstruments` against the set model.
-fn check_indexed(ii: &IndexedInstruments, m: &Model, rng: &mut Rng, obs: &mut Obs) -> Result<(), Fail> {
+fn check_indexed(ii: &IndexedInstruments, m: &Model, light: bool, rng: &mut Rng, obs: &mut Obs) -> Result<(), Fail> {
     let (ne, na, ni) = (ii.exchanges().len(), ii.assets().len(), ii.instruments().len());
     obs.events += 3;
 
@@ -580,10 +585,12 @@ fn check_indexed(ii: &IndexedInstruments, m: &Model, rng: &mut Rng, obs: &mut Ob
     }
     for e in &m.exchanges {
         // asset names NOT defined on e (some are defined on other exchanges)
+        let mut probed = 0;
         for n in ASSETS.iter().copied().chain(["zzz-never"]) {
-            if m.assets.contains(&(*e, n.to_string())) {
+            if m.assets.contains(&(*e, n.to_string())) || (light && probed >= 3) {
                 continue;
             }
+            probed += 1;
             obs.events += 1;
             obs.checks += 1;
             if m.assets.iter().any(|(_, x)| x == n) {
@@ -925,7 +932,7 @@ fn run_case(case: &Case, obs: &mut Obs) -> Result<(), Fail> {
             };
             match &first {
                 None => {
-                    match catch(|| check_indexed(&ii, &m, &mut rng, obs)) {
+                    match catch(|| check_indexed(&ii, &m, case.light, &mut rng, obs)) {
                         Ok(r) => r?,
                         Err(msg) => return Err(("panic_in_index_lookup", format!("panic while reading the index built from order {order:?}: {msg}"))),
                     }
@@ -947,7 +954,7 @@ fn run_case(case: &Case, obs: &mut Obs) -> Result<(), Fail> {
                         };
                         // a different-but-valid result is an order dependence; an invalid one gets
                         // its own (more specific) signature first
-                        match catch(|| check_indexed(&ii, &m, &mut rng, obs)) {
+                        match catch(|| check_indexed(&ii, &m, case.light, &mut rng, obs)) {
                             Ok(r) => r?,
                             Err(msg) => return Err(("panic_in_index_lookup", format!("panic while reading the index built from order {order:?}: {msg}"))),
                         }
@@ -980,6 +987,7 @@ fn project(case: &Case, kept: &[usize]) -> Case {
         orders: case.orders.iter().map(|ord| ord.iter().filter_map(|i| new_pos.get(i).copied()).collect()).collect(),
         balance_seed: case.balance_seed,
         exec_seed: case.exec_seed,
+        light: case.light,
     }
 }
 
@@ -1043,7 +1051,7 @@ fn letters(rng: &mut Rng, n: usize) -> String {
 }
 
 fn gen_case(rng: &mut Rng, small: bool) -> Case {
-    let n_exch = if small { rng.range_u(1, 3) } else { *rng.pick(&[1, 2, 2, 3, 3, 4, 5]) };
+    let n_exch = if small { rng.range_u(1, 2) } else { *rng.pick(&[1, 2, 2, 3, 3, 4, 5]) };
     let mut pool = POOL.to_vec();
     rng.shuffle(&mut pool);
     let exchanges: Vec<ExchangeId> = pool[..n_exch].to_vec();
@@ -1053,7 +1061,7 @@ fn gen_case(rng: &mut Rng, small: bool) -> Case {
     rng.shuffle(&mut names);
     names.truncate(rng.range_u(3, ASSETS.len()));
 
-    let n_defs = if small { rng.range_u(1, 6) } else { rng.range_u(1, 25) };
+    let n_defs = if small { rng.range_u(1, 4) } else { rng.range_u(1, 25) };
     let n_dups = if n_defs >= 2 && rng.chance(1, 2) { rng.range_u(1, 3.min(n_defs - 1)) } else { 0 };
     let n_base = n_defs - n_dups;
 
@@ -1128,14 +1136,14 @@ fn gen_case(rng: &mut Rng, small: bool) -> Case {
     }
     rng.shuffle(&mut defs);
 
-    let orders = (0..5)
+    let orders = (0..if small { 2 } else { 5 })
         .map(|_| {
             let mut o: Vec<usize> = (0..defs.len()).collect();
             rng.shuffle(&mut o);
             o
         })
         .collect();
-    Case { defs, orders, balance_seed: rng.next_u64(), exec_seed: rng.next_u64() }
+    Case { defs, orders, balance_seed: rng.next_u64(), exec_seed: rng.next_u64(), light: small }
 }
 
 const FLOOR: [&str; 15] = [
